@@ -67,13 +67,14 @@ class RequestAssembler:
 def encode_response(tid: int, status: int, body: bytes | None, cuts=None, first_control=0x02, cont_control=0x82):
     """Return the list of response fragments.
 
-    cuts: sorted positions in the *body* at which the accessory starts a new fragment.
+    cuts: sorted positions in the *body* at which the accessory starts a new fragment (0 = the first fragment carries the
+    5-byte header only and the whole body travels in continuation fragments).
     body None -> header-only response (3 bytes).
     """
     if body is None:
         return [struct.pack("<BBB", first_control, tid, status)]
     body = bytes(body)
-    cuts = [c for c in (cuts or []) if 0 < c < len(body)]
+    cuts = sorted({c for c in (cuts or []) if 0 <= c < len(body)})
     bounds = [0, *cuts, len(body)]
     frags = []
     for k in range(len(bounds) - 1):
